@@ -4,22 +4,56 @@ Programs  D(value) | W(tag, body) | R  are compiled to Python source with real n
 `with T[i]:` statements and `sys.displayhook(V[j])` calls and executed with a recording
 function installed as sys.displayhook.  The same program goes to the extracted Coq model
 (run: the transcription of __enter__/__exit__/wrap_displayhook_handler/append) and to the
-extracted hook-free specification (sem)."""
+extracted hook-free specification (sem).
+
+PUBLIC ENTRY POINTS THAT REACH THE BEHAVIOUR OF C17 (and where this file exercises them)
+  * `with tag:`            the with-statement on a Tag                      (wform "with")
+  * contextlib.ExitStack().enter_context(tag)                                (wform "exitstack")
+  * tag.__enter__() / tag.__exit__(type, value, tb) called by hand, as the language reference
+    expands the with-statement                                               (wform "manual")
+  * the Tag objects themselves: Tag(name, ...), htmltools.tags.<name>(...), the top-level
+    re-exports htmltools.div / span / p / em, Tag(..., {attrs}, _add_ws=False, id=...), a user
+    subclass of Tag, copy.copy(tag), tag.tagify()                            (tform, K steps)
+  * sys.displayhook(value) called directly, and the interpreter's own call for an expression
+    statement compiled in 'single' mode (what an interactive session / notebook does)
+                                                                             (dform "call" / "single")
+  * the hook that is installed when the outermost block is entered: ANY callable -- function,
+    lambda, bound method, functools.partial, callable object, callable objects that are falsy
+    (a list subclass used as a recorder while still empty, __bool__ / __len__ returning
+    False / 0), a hook that returns a value                                  (hookform)
+  * htmltools.wrap_displayhook_handler(handler) used directly, with a recording handler and with
+    tag.append as handler (two wrappers alive at once)                       (direct_wrapper_checks)
+  * what is displayed: None, Ellipsis, str (and str subclasses), numbers, HTML (and subclasses),
+    _repr_html_ objects, Tags (the block's own included), tagifiable objects (also ones that are
+    self-rendering as well, JSX components), metadata / HTMLDependency, list / tuple / TagList
+    nested to any depth and of any length, anything else (TypeError)
+  * afterwards, a tag that was used as a context manager is rendered through every route
+    (get_html_string with default and non-default indent / eol, tagify, render, str, repr,
+    _repr_html_, json dependency mode, HTMLDocument(...).render()), copied (copy.copy) and the
+    copy rendered: all must give what the tag built by the constructor from the same children
+    gives                                                                    (post_checks)
+There are no keyword arguments on this path (__enter__ takes none; __exit__ gets the exception
+triple from the interpreter)."""
 from __future__ import annotations
 
+import builtins
+import contextlib
 import copy as pycopy
+import functools
 import glob
+import io
 import itertools
 import json
 import os
 import sys
 
-from ..common import Ctx, S, VERIF, run_model
+from ..common import Ctx, ImplTimeout, S, VERIF, run_model, time_limit
 from .. import trees
-from ..trees import CustomObj, CustomReprObj, ReprObj
+from ..trees import CustomObj, CustomReprObj, HtmlSub, ReprObj, StrSub
 
 import htmltools
-from htmltools import HTML, HTMLDependency, MetadataNode, Tag, TagList
+from htmltools import HTML, HTMLDependency, HTMLDocument, MetadataNode, Tag, TagList
+from htmltools._jsx import jsx_tag_create
 
 
 class Boom(Exception):
@@ -44,12 +78,113 @@ class MaybeT:
             self.tagify = lambda: exp
 
 
-# objects kept by identity in child lists (never mutated by a program)
+# objects kept by identity in child lists (never mutated by a program); the first three also
+# serve as initial children.  5: a JSX component (tagifiable AND self-rendering, not a Tag) with an
+# ordinary tag inside; 6: a second tagifiable + self-rendering object of the class of 1
 CUSTOMS = [CustomObj(["x"], True), CustomReprObj(["y"], True, "<i>r</i>"), CustomObj([Tag("u")], False),
-           MaybeT("m"), MaybeT(TagList("n"))]
-METAS = [MetadataNode(), HTMLDependency("dep", "1.0"), MetadataNode()]
+           MaybeT("m"), MaybeT(TagList("n")),
+           jsx_tag_create("MyComp")(Tag("b", "in jsx"), "x", id="c5"),
+           CustomReprObj([Tag("q", "z")], False, "<u>other</u>")]
+# 3: content for <head> (a dependency carrying markup); 4: same name as 1, other version
+METAS = [MetadataNode(), HTMLDependency("dep", "1.0"), MetadataNode(),
+         htmltools.head_content(Tag("title", "T & t")), HTMLDependency("dep", "1.1")]
 TAG_NAMES = ["div", "span", "p", "b", "section", "ul", "li", "em"]
 BAD_KINDS = ["set", "dict", "object", "bytes", "module", "func", "maybe", "maybet", "maybe", "maybet"]
+
+
+# NOT generated (a deviation of /repo from the statement, reported, kept out of the oracle): an invalid
+# value whose __eq__ claims equality with None or Ellipsis (unittest.mock.ANY, an object with
+# `__eq__ = lambda *a: True`) is silently ignored inside a block instead of being rejected with
+# TypeError, because handler_wrapper tests `value not in (None, ...)` (equality) instead of identity.
+
+
+class SinkList(list):
+    """a recording hook written as a list subclass: FALSY until it has received something"""
+
+    def __call__(self, value):
+        self.append(value)
+
+
+class SinkObj:
+    def __init__(self, log):
+        self.log = log
+
+    def __call__(self, value):
+        self.log.append(value)
+
+
+class SinkFalse(SinkObj):
+    """a callable whose truth value is always False"""
+
+    def __bool__(self):
+        return False
+
+
+class SinkLen0(SinkObj):
+    """a callable with __len__() == 0 (falsy through its length)"""
+
+    def __len__(self):
+        return 0
+
+
+HOOK_FORMS = ["func", "bound", "lambda", "partial", "obj", "returns", "falsy_list", "falsy_bool", "falsy_len"]
+FALSY_FORMS = ["falsy_list", "falsy_bool", "falsy_len"]
+
+
+def make_hook(form: str):
+    """-> (the callable installed as sys.displayhook before the program, the list it records into).
+    The statement speaks of `the hook that was installed`: any callable; its truth value, its length,
+    what it returns are its own business."""
+    log: list = []
+    if form == "bound":
+        return log.append, log
+    if form == "lambda":
+        return (lambda value: log.append(value)), log
+    if form in ("falsy_list", "partial", "obj", "falsy_bool", "falsy_len"):
+        if form == "falsy_list":
+            h = log = SinkList()
+        else:
+            h = functools.partial(list.append, log) if form == "partial" else \
+                {"obj": SinkObj, "falsy_bool": SinkFalse, "falsy_len": SinkLen0}[form](log)
+        # copy.copy(tag) copies the saved hook OBJECT of a tag that was used: a copy of this hook is
+        # recognised by this token (only to describe such copies; restoration is judged by identity)
+        h.origin = object()
+        return h, log
+    if form == "returns":
+        def base_r(value):
+            log.append(value)
+            return value
+        return base_r, log
+
+    def base(value):
+        log.append(value)
+    return base, log
+
+
+class SubTag(Tag):
+    """a user subclass of Tag"""
+
+
+TAG_FORMS = ["Tag", "fn", "top", "attrs", "sub"]
+
+
+def tag_form(case, i):
+    f = case.get("tform", "Tag")
+    return TAG_FORMS[i % len(TAG_FORMS)] if f == "mixed" else f
+
+
+def make_tag(i: int, kids: list, form: str):
+    """the i-th tag of a program, through one of the public ways of making a Tag"""
+    name = TAG_NAMES[i % len(TAG_NAMES)]
+    if form == "fn":
+        return getattr(htmltools.tags, name)(*kids)
+    if form == "top":
+        return getattr(htmltools, name, getattr(htmltools.tags, name))(*kids)
+    if form == "attrs":
+        return Tag(name, {"class": "c & d"}, *kids, id=f"t{i}", _add_ws=False)
+    if form == "sub":
+        return SubTag(name, *kids)
+    return Tag(name, *kids)
 
 
 def make_bad(kind: str):
@@ -79,11 +214,11 @@ def build(v, tags):
     if k == "E":
         return ...
     if k == "T":
-        return v[1]
+        return StrSub(v[1]) if len(v) > 2 else v[1]       # ["T", s, "sub"]: an instance of a str subclass
     if k == "I":
         return make_num(v[1], v[2])
     if k == "H":
-        return HTML(v[1])
+        return HtmlSub(v[1]) if len(v) > 2 else HTML(v[1])  # ["H", s, "sub"]: an HTML subclass
     if k == "R":
         return Maybe(v[1]) if len(v) > 2 else ReprObj(v[1])
     if k == "G":
@@ -216,41 +351,82 @@ def dec_spec(m):
 # ------------------------------------------------------------------------------------
 # compiling a program to source with real with-statements
 # ------------------------------------------------------------------------------------
-def compile_prog(prog):
-    """-> (code object, displayed values in order of appearance, blocks)
+W_FORMS = ["with", "exitstack", "manual"]
+SPLIT_EVERY = 4      # CPython: at most 20 statically nested blocks and 100 indentation levels per code object
+
+
+def compile_prog(prog, wform="with", dform="call"):
+    """-> (code object, displayed values in order of appearance, blocks, source)
     Every with-statement is wrapped so that the harness sees sys.displayhook right before it,
-    right after a successful __enter__ and right after the statement is left, on every path."""
-    lines = ["def __prog(T, V, H):"]
+    right after a successful __enter__ and right after the statement is left, on every path.
+    wform: how a block is entered and left -- the with-statement, contextlib.ExitStack, or explicit
+    __enter__/__exit__ calls following the expansion in the language reference ("mixed": by block
+    number).  dform: how a value is displayed -- sys.displayhook(v), or an expression statement
+    compiled in 'single' mode, for which the interpreter itself calls sys.displayhook ("mixed": by
+    position).  Bodies nested deeper than SPLIT_EVERY levels continue in a function of their own
+    (same statements, same dynamic nesting), so any nesting depth can be compiled."""
+    main = ["def __prog(T, V, H):"]
+    funcs: list = [main]
     vals: list = []
     blocks: list = []          # (tag, lexical parent block number or None)
 
-    def emit(stmts, ind, parent):
+    def emit(stmts, ind, parent, level, buf):
         if not stmts:
-            lines.append(ind + "pass")
+            buf.append(ind + "pass")
         for st in stmts:
             if st[0] == "D":
                 vals.append(st[1])
-                lines.append(f"{ind}sys.displayhook(V({len(vals) - 1}))")
+                j = len(vals) - 1
+                single = dform == "single" or (dform == "mixed" and j % 2 == 1)
+                buf.append(f"{ind}H.show(V({j}))" if single else f"{ind}sys.displayhook(V({j}))")
             elif st[0] == "K":
-                lines.append(f"{ind}T[{st[2]}] = H.copy({st[1]}, {st[2]}, {st[3]!r})")
+                buf.append(f"{ind}T[{st[2]}] = H.copy({st[1]}, {st[2]}, {st[3]!r})")
             elif st[0] == "R":
-                lines.append(f"{ind}raise Boom()")
+                buf.append(f"{ind}raise Boom()")
             else:
                 n = len(blocks)
                 blocks.append((st[1], parent))
-                lines.append(f"{ind}_b{n} = sys.displayhook; _e{n} = False; H.before({n})")
-                lines.append(f"{ind}try:")
-                lines.append(f"{ind}    with T[{st[1]}]:")
-                lines.append(f"{ind}        _e{n} = True; H.entered({n}, sys.displayhook)")
-                emit(st[2], ind + "        ", n)
-                lines.append(f"{ind}except BaseException as _x:")
-                lines.append(f"{ind}    H.left({n}, _e{n}, _b{n}, sys.displayhook, _x); raise")
-                lines.append(f"{ind}else:")
-                lines.append(f"{ind}    H.left({n}, _e{n}, _b{n}, sys.displayhook, None)")
+                wf = W_FORMS[n % len(W_FORMS)] if wform == "mixed" else wform
+                buf.append(f"{ind}_b{n} = sys.displayhook; _e{n} = False; H.before({n})")
+                buf.append(f"{ind}try:")
+                if wf == "exitstack":
+                    buf.append(f"{ind}    with contextlib.ExitStack() as _s{n}:")
+                    buf.append(f"{ind}        _s{n}.enter_context(T[{st[1]}])")
+                    buf.append(f"{ind}        _e{n} = True; H.entered({n}, sys.displayhook)")
+                    inner = ind + "        "
+                elif wf == "manual":
+                    buf.append(f"{ind}    _m{n} = T[{st[1]}]; _x{n} = type(_m{n}).__exit__")
+                    buf.append(f"{ind}    type(_m{n}).__enter__(_m{n})")
+                    buf.append(f"{ind}    try:")
+                    buf.append(f"{ind}        _e{n} = True; H.entered({n}, sys.displayhook)")
+                    inner = ind + "        "
+                else:
+                    buf.append(f"{ind}    with T[{st[1]}]:")
+                    buf.append(f"{ind}        _e{n} = True; H.entered({n}, sys.displayhook)")
+                    inner = ind + "        "
+                if level + 1 >= SPLIT_EVERY and st[2]:
+                    buf.append(f"{inner}_g{n}(T, V, H)")
+                    fb = [f"def _g{n}(T, V, H):"]
+                    funcs.append(fb)
+                    emit(st[2], "    ", n, 0, fb)
+                else:
+                    emit(st[2], inner, n, level + 1, buf)
+                if wf == "manual":
+                    buf.append(f"{ind}    except BaseException:")
+                    buf.append(f"{ind}        if not _x{n}(_m{n}, *sys.exc_info()): raise")
+                    buf.append(f"{ind}    else:")
+                    buf.append(f"{ind}        _x{n}(_m{n}, None, None, None)")
+                buf.append(f"{ind}except BaseException as _x:")
+                buf.append(f"{ind}    H.left({n}, _e{n}, _b{n}, sys.displayhook, _x); raise")
+                buf.append(f"{ind}else:")
+                buf.append(f"{ind}    H.left({n}, _e{n}, _b{n}, sys.displayhook, None)")
 
-    emit(prog, "    ", None)
-    src = "\n".join(lines) + "\n"
+    emit(prog, "    ", None, 0, main)
+    src = "\n".join("\n".join(f) for f in reversed(funcs)) + "\n"
     return compile(src, "<C17 program>", "exec"), vals, blocks, src
+
+
+SINGLE = compile("_v", "<C17 expression statement>", "single")
 
 
 class Monitor:
@@ -271,6 +447,11 @@ class Monitor:
         self.snap: dict[int, tuple] = {}
         self.problems: list[tuple[str, str]] = []
         self.reused_exited = False
+
+    @staticmethod
+    def show(value):
+        """an expression statement in interactive ('single') mode: the interpreter calls sys.displayhook"""
+        exec(SINGLE, {"_v": value})
 
     def _receiver(self, n):
         parent = self.blocks[n][1]
@@ -350,7 +531,7 @@ class Monitor:
 def classify_hook(h, base, wrappers):
     if h is None:
         return ["none"]
-    if h is base:
+    if h is base or (getattr(h, "origin", None) is not None and getattr(h, "origin", None) is getattr(base, "origin", 0)):
         return ["base"]
     for t, ws in enumerate(wrappers):
         if any(h is w for w in ws):
@@ -358,23 +539,25 @@ def classify_hook(h, base, wrappers):
     return ["other"]
 
 
-def canon_obj(x, tags):
+_FIXED_IDS: dict = {}
+
+
+def canon_obj(x, tags, ids=None):
     """a Python object found in a child list or in the base log -> value description"""
     if x is None:
         return ["N"]
     if x is ...:
         return ["E"]
-    for i, t in enumerate(tags):
-        if x is t:
-            return ["G", i]
-    for i, c in enumerate(CUSTOMS):
-        if x is c:
-            return ["C", i]
-    for i, c in enumerate(METAS):
-        if x is c:
-            return ["M", i]
+    if ids is None:
+        ids = {id(t): ["G", i] for i, t in enumerate(tags) if t is not None}
+    if not _FIXED_IDS:
+        _FIXED_IDS.update({id(c): ["C", i] for i, c in enumerate(CUSTOMS)})
+        _FIXED_IDS.update({id(c): ["M", i] for i, c in enumerate(METAS)})
+    r = ids.get(id(x)) or _FIXED_IDS.get(id(x))
+    if r is not None:
+        return list(r)
     if isinstance(x, str):
-        return ["T", x]
+        return ["T", str.__str__(x)]
     if isinstance(x, (bool, int, float)):
         return ["I", str(x)]
     if isinstance(x, HTML):
@@ -382,35 +565,70 @@ def canon_obj(x, tags):
     if isinstance(x, ReprObj) or (isinstance(x, Maybe) and hasattr(x, "s")):
         return ["R", x.s]
     if isinstance(x, (list, tuple, TagList)):
-        return ["L", [canon_obj(y, tags) for y in x]]
+        return ["L", [canon_obj(y, tags, ids) for y in x]]
     return ["B"]
 
 
+def snapshot(o):
+    """identity structure of a displayed container (the caller's object: a block must not change it)"""
+    if isinstance(o, (list, tuple, TagList)):
+        return (type(o).__name__, [snapshot(x) for x in o])
+    return id(o)
+
+
+def containers_in(o, acc):
+    if isinstance(o, (list, tuple, TagList)):
+        acc.append(o)
+        for x in o:
+            containers_in(x, acc)
+    return acc
+
+
+def origins(case):
+    """tag index -> index of the constructed tag it is (a copy of a copy of ...) a copy of"""
+    n = len(case["kids"])
+    org = list(range(n)) + [None] * case.get("ncopy", 0)
+    for st in case["prog"]:
+        if st[0] == "K":
+            org[st[2]] = org[st[1]]
+    return org
+
+
 def execute(case):
-    """run the program against the implementation -> (observation, monitor)"""
-    code, vals, blocks, _src = compile_prog(case["prog"])
-    tags = [Tag(TAG_NAMES[i % len(TAG_NAMES)], *[build(k, None) for k in ks])
+    """run the program against the implementation -> (observation, monitor, live objects)"""
+    hooked = case["hook"] == "base"
+    code, vals, blocks, _src = compile_prog(case["prog"], case.get("wform", "with"),
+                                            case.get("dform", "call") if hooked else "call")
+    tags = [make_tag(i, [build(k, None) for k in ks], tag_form(case, i))
             for i, ks in enumerate(case["kids"])] + [None] * case.get("ncopy", 0)
+    shown: list = []            # (value description index, live object, snapshot) of displayed containers
 
     def V(j):           # built when displayed: a copy exists only after its copy step ran
-        return build(vals[j], tags)
+        o = build(vals[j], tags)
+        if vals[j][0] == "L":
+            shown.append((j, o, snapshot(o)))
+        return o
 
-    log: list = []
-
-    def base(value):
-        log.append(value)
-
-    mon = Monitor(tags, blocks, log, check=case["hook"] == "base")
-    ns: dict = {"sys": sys, "Boom": Boom}
+    base, log = make_hook(case.get("hookform", "func"))
+    mon = Monitor(tags, blocks, log, check=hooked)
+    ns: dict = {"sys": sys, "Boom": Boom, "contextlib": contextlib}
     exec(code, ns)
     real = sys.displayhook
+    under = getattr(builtins, "_", None)
+    out = io.StringIO()
     try:
-        sys.displayhook = base if case["hook"] == "base" else None
+        sys.displayhook = base if hooked else None
         try:
-            ns["__prog"](tags, V, mon)
+            # a hook that is not the program's (the interpreter's own, say) must not write into the report
+            with contextlib.redirect_stdout(out), time_limit():
+                ns["__prog"](tags, V, mon)
             outcome = ["normal"]
         except Boom:
             outcome = ["user"]
+        except ImplTimeout:
+            outcome = ["other", "did-not-terminate"]
+        except RecursionError:
+            outcome = ["other", "RecursionError"]
         except RuntimeError:
             outcome = ["err", 6]
         except TypeError:
@@ -420,13 +638,16 @@ def execute(case):
         final = sys.displayhook
     finally:
         sys.displayhook = real
+        builtins._ = under
+    ids = {id(t): ["G", i] for i, t in enumerate(tags) if t is not None}
     obs = {"hook": classify_hook(final, base, mon.wrappers),
            "tags": [[["none"], []] if t is None else
                     [classify_hook(t.prev_displayhook, base, mon.wrappers),
-                     [canon_obj(c, tags) for c in t.children]] for t in tags],
-           "log": [canon_obj(x, tags) for x in log],
+                     [canon_obj(c, tags, ids) for c in t.children]] for t in tags],
+           "log": [canon_obj(x, tags, ids) for x in log],
            "outcome": outcome}
-    return obs, mon
+    return obs, mon, {"tags": tags, "shown": shown, "vals": vals, "printed": out.getvalue()[:300],
+                      "final_is_base": final is base}
 
 
 # ------------------------------------------------------------------------------------
@@ -546,9 +767,9 @@ def outcome_ok(expected, got):
 def rand_leaf(rng, ntags, cur=None):
     r = rng.random()
     if r < 0.30:
-        return ["T", trees.rand_text(rng, 5)]
+        return ["T", trees.rand_text(rng, 5)] if r > 0.03 else ["T", trees.rand_text(rng, 5), "sub"]
     if r < 0.40:
-        return ["H", trees.rand_text(rng, 5)]
+        return ["H", trees.rand_text(rng, 5)] if r > 0.32 else ["H", trees.rand_text(rng, 5), "sub"]
     if r < 0.44:
         return ["R", trees.rand_text(rng, 5)]
     if r < 0.50:      # an instance of the class Maybe that carries _repr_html_ itself
@@ -651,6 +872,23 @@ def rand_case(rng, maxdepth, faulty):
     case = {"hook": "base", "kids": [rand_kids(rng) for _ in range(ntags)], "prog": prog}
     if rng.random() < 0.45:
         add_copies(rng, case, g)
+    rand_forms(rng, case)
+    return case
+
+
+def rand_forms(rng, case, p=0.5):
+    """which public route the program takes: kind of enclosing hook, way of entering / leaving blocks,
+    way of displaying, way of making the tags; whether the tags are used as ordinary tags afterwards"""
+    if rng.random() < p:
+        case["hookform"] = rng.choice(HOOK_FORMS)
+    if rng.random() < p * 0.6:
+        case["wform"] = rng.choice(W_FORMS + ["mixed"])
+    if rng.random() < p * 0.6:
+        case["dform"] = rng.choice(["single", "mixed"])
+    if rng.random() < p * 0.6:
+        case["tform"] = rng.choice(TAG_FORMS + ["mixed"])
+    if rng.random() < p * 0.3:
+        case["post"] = True
     return case
 
 
@@ -686,6 +924,263 @@ def add_copies(rng, case, g):
             prog.insert(pos, st)
             pos += 1
     case["ncopy"] = ncopy
+
+
+# ------------------------------------------------------------------------------------
+# sizes and depths: just below, at and above the powers of two, content placed beyond them
+# ------------------------------------------------------------------------------------
+DEPTHS = [7, 8, 9, 15, 16, 17, 31, 32, 33, 34, 63, 64, 65, 70]
+COUNTS = [7, 8, 9, 15, 16, 17, 31, 32, 33, 63, 64, 65, 127, 128, 129, 255, 256, 257, 300]
+STRLENS = [300, 4097, 5000, 65537, 70001]
+
+
+def nest(rng, v, depth, kind):
+    """v wrapped in `depth` levels of list / tuple; some levels have siblings before and after the
+    nested item, so that what lies beyond the deep part is looked at too"""
+    for i in range(depth):
+        k = rng.choice(["list", "tuple"]) if kind == "mixed" else kind
+        if i % 6 == 5:
+            v = ["L", k, [["N"], v, ["T", f"after level {i}"]]]
+        else:
+            v = ["L", k, [v]]
+    return v
+
+
+def long_text(rng, n):
+    """n characters, markup-significant ones throughout, a distinctive tail"""
+    tail = "&<THE END>\u00e9"
+    bits = []
+    size = 0
+    while size < n - len(tail):
+        b = rng.choice(trees.LONG_BITS)
+        bits.append(b)
+        size += len(b)
+    return "".join(bits)[: n - len(tail)] + tail
+
+
+def some_leaf(rng, i, ntags):
+    r = i % 7
+    if r == 0:
+        return ["T", f"t{i}&"]
+    if r == 1:
+        return ["I", "int", str(i)]
+    if r == 2:
+        return ["N"]
+    if r == 3:
+        return ["H", f"<i>{i}</i>"]
+    if r == 4:
+        return ["G", rng.randrange(ntags)]
+    if r == 5:
+        return ["R", f"<r{i}>"]
+    return rng.choice([["C", rng.randrange(len(CUSTOMS))], ["M", rng.randrange(len(METAS))], ["T", ""]])
+
+
+def deep_list_case(rng, d):
+    kind = rng.choice(["list", "tuple", "mixed"])
+    good = nest(rng, ["L", "list", [["T", "a"], ["N"], ["I", "int", "1"], ["G", 1], ["T", "z"]]], d - 1, kind)
+    bottom_tl = nest(rng, ["L", "taglist", [["T", "t"], ["H", "<i>"], ["G", 1]]], d, rng.choice(["tuple", "mixed"]))
+    bad = nest(rng, rng.choice([["B", rng.choice(BAD_KINDS)], ["E"]]), d, rng.choice(["list", "tuple", "mixed"]))
+    prog = [["D", good],
+            ["W", 0, [["D", ["T", "start"]], ["D", good], ["D", bottom_tl], ["D", ["T", "end"]]]],
+            ["W", 2, [["D", ["T", "x"]], ["D", bad], ["D", ["T", "never"]]]],
+            ["D", ["T", "not reached"]]]
+    if rng.random() < 0.5:      # the invalid one inside a nested block: two blocks are left by the TypeError
+        prog[2] = ["W", 3, [["D", ["T", "outer"]], prog[2], ["D", ["T", "never either"]]]]
+    return {"hook": "base", "kids": [[], [["T", "k"]], [], []], "prog": prog}
+
+
+def deep_blocks_case(rng, d):
+    """a chain of d nested blocks (d + 1 tags), something displayed before and after each inner block;
+    at the bottom nothing / a user exception / an invalid value / re-entering an enclosing tag"""
+    fault = rng.choice(["none", "none", "raise", "bad", "active0", "activemid"])
+    body: list = [["D", ["T", "bottom"]]]
+    if fault == "raise":
+        body.append(["R"])
+    elif fault == "bad":
+        body.append(["D", ["L", "list", [["T", "ok"], ["B", rng.choice(BAD_KINDS)]]]])
+    elif fault == "active0":
+        body.append(["W", 0, [["D", ["T", "never"]]]])
+    elif fault == "activemid":
+        body.append(["W", d // 2, [["D", ["T", "never"]]]])
+    elif rng.random() < 0.5:
+        body.append(["D", ["G", d]])
+    body.append(["D", ["T", "bottom end"]])
+    for t in range(d - 1, -1, -1):
+        body = [["D", ["T", f"in {t}"]], ["W", t, body], ["D", ["I", "int", str(t)]]]
+    body = body[1:2] + [["D", ["T", "after all"]]]
+    return {"hook": "base", "kids": [[] for _ in range(d + 1)], "prog": body}
+
+
+def wide_list_case(rng, n):
+    """containers of n items; the last item decides (a tag, a number, an invalid value)"""
+    kind = rng.choice(["list", "tuple"])
+    items = [some_leaf(rng, i, 3) for i in range(n - 1)]
+    last = rng.choice([["G", 1], ["I", "float", "0.0"], ["T", "last"], ["L", "tuple", [["T", "last in tuple"]]]])
+    tl_items = [x if x[0] not in "IN" else ["T", "n"] for x in items] + [["G", 1]]
+    prog = [["W", 0, [["D", ["L", kind, items + [last]]], ["D", ["L", "taglist", tl_items]], ["D", ["T", "end"]]]],
+            ["D", ["L", kind, items + [last]]],
+            ["W", 2, [["D", ["L", kind, items + [["B", rng.choice(BAD_KINDS)]]]], ["D", ["T", "never"]]]]]
+    return {"hook": "base", "kids": [[], [], []], "prog": prog}
+
+
+def many_displays_case(rng, n):
+    """n values displayed one after the other in one block (the history of one hook); the last ones
+    are the telling ones"""
+    body = [["D", some_leaf(rng, i, 2)] for i in range(n - 2)]
+    body += [["D", ["I", "int", str(n)]], ["D", rng.choice([["G", 1], ["T", "last"], ["R", "<last>"]])]]
+    prog = [["W", 0, body]]
+    if rng.random() < 0.5:
+        prog.append(["W", 1, [["D", ["T", "second block"]], ["D", ["G", 0]]]])
+    if rng.random() < 0.4:
+        body.append(["D", ["B", rng.choice(BAD_KINDS)]])
+    return {"hook": "base", "kids": [[], []], "prog": prog}
+
+
+def many_blocks_case(rng, n):
+    """n blocks one after the other (n + 1 tags), inside one block or at top level; the last one may
+    end in an exception"""
+    blocks = [["W", i + 1, [["D", ["T", f"b{i}"]]]] for i in range(n)]
+    r = rng.random()
+    if r < 0.3:
+        blocks[-1][2].append(["R"])
+    elif r < 0.5:
+        blocks[-1][2].append(["W", 0, [["D", ["T", "never"]]]])      # tag 0 is active (or, at top level, fresh)
+    elif r < 0.6:
+        blocks[-1][2].append(["D", ["B", rng.choice(BAD_KINDS)]])
+    prog = [["W", 0, blocks + [["D", ["T", "end"]]]]] if rng.random() < 0.6 else blocks + [["D", ["T", "end"]]]
+    return {"hook": "base", "kids": [[] for _ in range(n + 1)], "prog": prog}
+
+
+def many_kids_case(rng, n):
+    """a tag that already has n children is used in a block; so is a copy of it"""
+    kids = []
+    for i in range(n):
+        k = "THRCM"[i % 5]
+        kids.append([k, f"k{i}<"] if k in "THR" else [k, i % 3])
+    prog = [["K", 0, 2, rng.choice(["copy", "tagify"])],
+            ["W", 0, [["D", ["T", "x"]], ["D", ["G", 1]]]],
+            ["W", 2, [["D", ["T", "in the copy"]]]]]
+    return {"hook": "base", "kids": [kids, []], "ncopy": 1, "prog": prog}
+
+
+def copies_case(rng, n):
+    """a chain of n copies of copies; the last one is used, then the first"""
+    prog = [["K", i, i + 1, rng.choice(["copy", "tagify"])] for i in range(n)]
+    prog += [["W", n, [["D", ["T", "in the last copy"]]]], ["W", 0, [["D", ["T", "in the original"]]]],
+             ["W", n // 2, [["D", ["G", n]]]]]
+    return {"hook": "base", "kids": [[["T", "k"], ["H", "<b>"]]], "ncopy": n, "prog": prog}
+
+
+def long_string_case(rng, n):
+    s = long_text(rng, n)
+    body = [["D", ["T", s]], ["D", ["R", s]]]
+    if n < 60000:
+        body += [["D", ["H", s, "sub"]], ["D", ["L", "list", [["T", s, "sub"], ["H", s]]]]]
+    return {"hook": "base", "kids": [[["T", s]] if n < 60000 else [], []],
+            "prog": [["D", ["T", s]], ["W", 0, body + [["D", ["T", "end"]]]]]}
+
+
+def big_cases(rng, rounds=1):
+    out = []
+
+    def add(f, n):
+        c = f(rng, n)
+        c["big"] = f"{f.__name__[:-5]} {n}"
+        out.append(c)
+    for _ in range(rounds):
+        for d in DEPTHS:
+            add(deep_list_case, d)
+            add(deep_blocks_case, d)
+        for n in COUNTS:
+            for f in (wide_list_case, many_displays_case, many_blocks_case, many_kids_case):
+                add(f, n)
+            if n <= 65:
+                add(copies_case, n)
+        for n in STRLENS:
+            add(long_string_case, n)
+    if rounds > 1:      # thorough: sizes in between as well
+        for _ in range(40):
+            add(deep_list_case, rng.randrange(2, 72))
+            add(deep_blocks_case, rng.randrange(2, 72))
+            for f in (wide_list_case, many_displays_case, many_blocks_case):
+                add(f, rng.randrange(2, 320))
+    for c in out:
+        rand_forms(rng, c, p=0.8)
+        if "post" not in c and rng.random() < 0.5:
+            c["post"] = True
+    return out
+
+
+# ------------------------------------------------------------------------------------
+# wrap_displayhook_handler used directly
+# ------------------------------------------------------------------------------------
+def direct_cases(rng, n):
+    out = []
+    for i in range(n):
+        ntags = 3
+        vals = [rand_value(rng, ntags, None, depth=2, p_bad=0.1 if i % 3 == 0 else 0.0)
+                for _ in range(rng.choice([1, 2, 3, 5, 8]))]
+        if i % 10 == 0:
+            vals.append(nest(rng, ["L", "tuple", [["T", "deep"], ["G", 1]]], rng.choice(DEPTHS), "mixed"))
+        out.append({"direct": True, "hookform": HOOK_FORMS[i % len(HOOK_FORMS)], "vals": vals})
+    return out
+
+
+def check_direct(ctx: Ctx, case) -> None:
+    """htmltools.wrap_displayhook_handler(handler): None and Ellipsis are not passed on, an object that
+    only has _repr_html_ arrives as HTML(its markup), everything else arrives as the very object.
+    Two wrappers are alive at once (a recording handler of some form, and a tag's append): each
+    serves its own handler.  With tag.append as handler the tag ends up as the statement says."""
+    ntags = 3
+    vals, form = case["vals"], case["hookform"]
+    ctx.count(case, True, "wrap_displayhook_handler directly")
+    tags = [Tag(TAG_NAMES[k]) for k in range(ntags)]
+    target = Tag("section", "first")
+    rec, log = make_hook(form)
+    before = sys.displayhook
+    r = trees.safe_call(lambda: (htmltools.wrap_displayhook_handler(rec),
+                                 htmltools.wrap_displayhook_handler(target.append)))
+    if r[0] != "ok":
+        ctx.violation("wrap_displayhook_handler(handler) raised", case, {"impl_output": r, "expected": "a callable"})
+        return
+    w_rec, w_tag = r[1]
+    want_log, want_kids, problem = [], [["T", "first"]], None
+    tag_failed = False
+    for v in vals:
+        o = build(v, tags)
+        got_before = len(log)
+        r1 = trees.safe_call(w_rec, o)
+        new = list(log[got_before:])
+        if v[0] in "NE":
+            ok = r1[0] == "ok" and new == []
+        elif v[0] in "RH":      # HTML() is self-rendering too: the same markup, as HTML
+            ok = (r1[0] == "ok" and len(new) == 1 and isinstance(new[0], HTML)
+                  and new[0].as_string() == v[1])
+        else:
+            ok = r1[0] == "ok" and len(new) == 1 and new[0] is o
+        if not ok and problem is None:
+            problem = (f"value {val_canon(v)}: the recording handler received "
+                       f"{[canon_obj(x, tags) for x in new]} ({r1[0]})")
+        if tag_failed:
+            continue
+        r2 = trees.safe_call(w_tag, o)
+        cs = spec_shown(v)
+        if cs is None:
+            tag_failed = True          # TypeError expected; what an append that failed leaves is C14's subject
+            if r2 != ("err", 3) and problem is None:
+                problem = f"invalid value {val_canon(v)} through tag.append: {r2!r}, expected TypeError"
+        else:
+            want_kids += cs
+            if r2[0] != "ok" and problem is None:
+                problem = f"value {val_canon(v)} through tag.append: {r2!r}"
+    got_kids = [canon_obj(c, tags) for c in target.children]
+    if problem is None and not tag_failed and got_kids != want_kids:
+        problem = f"children of the tag whose append was wrapped: {got_kids}, expected {want_kids}"
+    if problem is None and sys.displayhook is not before:
+        problem = "calling the wrappers changed sys.displayhook"
+    if problem:
+        ctx.violation("wrap_displayhook_handler used directly: the handler does not receive the displayed "
+                      "values as the statement says", case, {"impl_output": problem, "expected": "see the docstring"})
 
 
 def positions(prog, path=()):
@@ -759,6 +1254,10 @@ def nesting(prog):
     return max([1 + nesting(st[2]) for st in prog if st[0] == "W"], default=0)
 
 
+def nstmts(prog):
+    return sum(1 + (nstmts(st[2]) if st[0] == "W" else 0) for st in prog)
+
+
 def kinds_of(prog, acc=None):
     acc = set() if acc is None else acc
     for st in prog:
@@ -769,15 +1268,129 @@ def kinds_of(prog, acc=None):
 
 
 # ------------------------------------------------------------------------------------
+# after the program: the caller's objects, and the tags as ordinary tags
+# ------------------------------------------------------------------------------------
+def caller_objects_problem(live):
+    """displaying a list / tuple / TagList hands its items to the block's tag: the displayed object
+    itself stays the caller's (unchanged, and not adopted as some tag's child list)"""
+    child_lists = {id(t.children) for t in live["tags"] if t is not None}
+    for j, o, snap in live["shown"]:
+        if snapshot(o) != snap:
+            return f"displayed value {j} (a {type(o).__name__}) was changed by displaying it"
+        for c in containers_in(o, []):
+            if id(c) in child_lists:
+                return f"a container inside displayed value {j} became the child list of a tag"
+    return None
+
+
+def reaches_cycle(kids):
+    """tags from which a tag containing itself (directly or not) can be reached: not renderable"""
+    n = len(kids)
+    succ = [[c[1] for c in ks if c[0] == "G"] for ks in kids]
+    state = [0] * n             # 0 new, 1 on the stack, 2 done/acyclic, 3 reaches a cycle
+
+    def go(i):
+        if state[i] == 1:
+            return True
+        if state[i] >= 2:
+            return state[i] == 3
+        state[i] = 1
+        bad = False
+        for j in succ[i]:
+            if go(j):
+                bad = True
+        state[i] = 3 if bad else 2
+        return bad
+    for i in range(n):
+        go(i)
+    return [x == 3 for x in state]
+
+
+def expected_tags(case, want_kids):
+    """The statement says what a block's tag holds afterwards: its earlier children and then the
+    displayed values in order under the normal child rules.  So the tag must be indistinguishable
+    (by rendering) from the tag the CONSTRUCTOR builds from those children."""
+    org = origins(case)
+    cyc = reaches_cycle(want_kids)
+    memo: dict = {}
+
+    def obj(c):
+        k = c[0]
+        if k == "T":
+            return c[1]
+        if k == "H":
+            return HTML(c[1])
+        if k == "R":
+            return ReprObj(c[1])
+        if k == "G":
+            return mk(c[1])
+        return CUSTOMS[c[1]] if k == "C" else METAS[c[1]]
+
+    def mk(i):
+        if i not in memo:
+            o = org[i] if org[i] is not None else i
+            memo[i] = make_tag(o, [obj(c) for c in want_kids[i]], tag_form(case, o))
+        return memo[i]
+    return [None if cyc[i] else mk(i) for i in range(len(want_kids))]
+
+
+def routes_of(x):
+    return trees.render_routes(x) + [
+        ("get_html_string(indent=3, eol='\\r\\n')", lambda: x.get_html_string(indent=3, eol="\r\n")),
+        ("HTMLDocument(x).render()['html']", lambda: HTMLDocument(x).render()["html"]),
+        ("HTMLDocument(x, lang='en').render(lib_prefix=None)['html']",
+         lambda: HTMLDocument(x, lang="en").render(lib_prefix=None)["html"]),
+        ("[d.name, d.version of render()['dependencies']]",
+         lambda: [(d.name, str(d.version)) for d in x.render()["dependencies"]]),
+        ("copy.copy(x).get_html_string()", lambda: pycopy.copy(x).tagify().get_html_string()),
+    ]
+
+
+def post_problem(case, live, want_kids, limit=3):
+    """a tag that was used as a context manager, afterwards: rendered through every route, put in a
+    document, copied -- compared with the tag built by the constructor from the same children"""
+    exp = expected_tags(case, want_kids)
+    done = 0
+    # the tags of the outermost blocks hold everything: take those first, then the others
+    order = sorted(range(len(exp)), key=lambda i: -len(want_kids[i]))
+    for i in order:
+        t = live["tags"][i]
+        if t is None or exp[i] is None:
+            continue
+        if done >= limit:
+            break
+        done += 1
+        for (name, f), (_, g) in zip(routes_of(t), routes_of(exp[i])):
+            got, want = trees.safe_call(f), trees.safe_call(g)
+            if got != want:
+                return (f"tag {i}: {name} gives {str(got)[:300]!r}; the tag built by the constructor from the "
+                        f"same children gives {str(want)[:300]!r}")
+        cp = pycopy.copy(t)
+        if cp.children is t.children:
+            return f"tag {i}: copy.copy of a tag that was used in a with-block shares its child list"
+    return None
+
+
+# ------------------------------------------------------------------------------------
 def check_cases(ctx: Ctx, name: str, cases: list, kind) -> None:
     if not cases:
         return
+    import time as _t
+    _t0 = _t.process_time()
+    try:
+        _check_cases(ctx, name, cases, kind)
+    finally:
+        if os.environ.get("C17_PROFILE"):
+            print(f"  [{name}] {len(cases)} cases, {_t.process_time() - _t0:.2f} s cpu", file=sys.stderr)
+
+
+def _check_cases(ctx: Ctx, name: str, cases: list, kind) -> None:
     model_out = run_model([case_sx(c) for c in cases], driver="c17")
     disagreements = []
     for c, m in zip(cases, model_out):
         d = nesting(c["prog"])
         ctx.count(c, d >= 1, kind(c) if callable(kind) else kind)
-        obs, mon = execute(c)
+        obs, mon, live = execute(c)
         # ---- B: implementation vs extracted model -------------------------------------
         if isinstance(m, tuple) or m == [999999, 999999]:
             disagreements.append({"case": c, "impl_output": obs, "model_output": m})
@@ -790,35 +1403,64 @@ def check_cases(ctx: Ctx, name: str, cases: list, kind) -> None:
         # ---- C: the statement, on the implementation ------------------------------------
         for what, where in mon.problems[:1]:
             ctx.violation(what, c, {"impl_output": obs, "expected": f"{where}: not ({what})"})
-        if obs["hook"] != ["base"]:
+        if obs["hook"] != ["base"] or not live["final_is_base"]:
             ctx.violation("after the program sys.displayhook is not the hook installed before it",
-                          c, {"impl_output": obs["hook"], "expected": ["base"]})
+                          c, {"impl_output": obs["hook"] if obs["hook"] != ["base"] else "another object (a copy?)",
+                              "expected": ["base"]})
+        if live["printed"]:
+            ctx.violation("something was written to stdout: a hook that is not part of the program's hook chain "
+                          "was called", c, {"impl_output": live["printed"], "expected": ""})
         want = spec_run(c, mon.entered_blocks)
         if want is None:
             continue
         got = {"kids": [t[1] for t in obs["tags"]], "log": obs["log"]}
+        good = False
         if not outcome_ok(want["outcome"], obs["outcome"]):
             ctx.violation("wrong outcome (exception kind / propagation)", c,
                           {"impl_output": obs["outcome"], "expected": want["outcome"]})
         elif got["kids"] != want["kids"]:
             ctx.violation("children collected by the blocks differ from the displayed values in "
                           "order under the child rules", c,
-                          {"impl_output": got["kids"], "expected": want["kids"]})
+                          {"impl_output": first_diff(got["kids"], want["kids"]), "expected": "see impl_output"}
+                          if c.get("big") else {"impl_output": got["kids"], "expected": want["kids"]})
         elif got["log"] != want["log"]:
             ctx.violation("values received by the outermost hook differ", c,
                           {"impl_output": got["log"], "expected": want["log"]})
+        else:
+            good = True
         sv = None if want["silent"] else dec_spec(m[1])   # sem follows the code where the statement is silent
         if sv is not None and (sv["kids"] != got["kids"] or sv["log"] != got["log"]
                                or sv["outcome"] != obs["outcome"]):
             ctx.violation("implementation differs from the extracted specification sem", c,
                           {"impl_output": {**got, "outcome": obs["outcome"]},
                            "expected": {k: sv[k] for k in ("kids", "log", "outcome")}})
+        pb = caller_objects_problem(live)
+        if pb:
+            ctx.violation("a displayed container (the caller's object) was modified or adopted by a block", c,
+                          {"impl_output": pb, "expected": "displayed lists / tuples / TagLists are left as they were"})
+        if good and c.get("post"):
+            pb = post_problem(c, live, want["kids"])
+            if pb:
+                ctx.violation("a tag that was used as a context manager does not behave like the tag the "
+                              "constructor builds from the same children", c,
+                              {"impl_output": pb, "expected": "every rendering route agrees"})
     ctx.corr_cases += len(cases)
     ctx.obligation(f"correspondence {name} ({len(cases)} programs)", not disagreements)
     if disagreements:
         disagreements.sort(key=lambda d: len(json.dumps(d["case"])))
         ctx.extra.setdefault("disagreements", []).extend(disagreements[:3])
         ctx.extra[f"disagree_{name}"] = disagreements[:3]
+
+
+def first_diff(got, want):
+    """for big cases: where two nested descriptions first differ (the whole things are in the case)"""
+    if isinstance(got, list) and isinstance(want, list):
+        for i, (a, b) in enumerate(zip(got, want)):
+            if a != b:
+                d = first_diff(a, b)
+                return {"at": [i] + d["at"], "got": d["got"], "expected": d["expected"]}
+        return {"at": [min(len(got), len(want))], "got": f"{len(got)} items", "expected": f"{len(want)} items"}
+    return {"at": [], "got": str(got)[:300], "expected": str(want)[:300]}
 
 
 def load_corpus() -> list:
@@ -868,6 +1510,24 @@ FIXED = [
               ["W", 1, [["D", ["R", "<o>", "inst"]], ["D", ["B", "maybe"]]]]]},
     {"hook": "base", "kids": [[], []],
      "prog": [["W", 0, [["D", ["B", "maybet"]]]], ["W", 1, [["D", ["C", 4]], ["D", ["R", "<p>", "inst"]]]]]},
+    # the enclosing hook is an object whose truth value is False / whose length is 0 (a recorder written as
+    # a list subclass, still empty): one block; nested blocks with an exception; two blocks in a row
+    {"hook": "base", "hookform": "falsy_list", "kids": [[]], "prog": [["W", 0, [["D", ["T", "a"]]]]]},
+    {"hook": "base", "hookform": "falsy_bool", "kids": [[], []],
+     "prog": [["W", 0, [["D", ["T", "a"]], ["W", 1, [["D", ["T", "b"]], ["R"]]]]]]},
+    {"hook": "base", "hookform": "falsy_len", "kids": [[], []], "post": True,
+     "prog": [["W", 0, [["D", ["T", "a"]]]], ["W", 1, [["D", ["G", 0]]]], ["D", ["T", "after"]]]},
+    # the other routes: ExitStack / explicit __enter__ and __exit__; expression statements in 'single' mode;
+    # tags made in different ways; the tags rendered afterwards
+    {"hook": "base", "hookform": "partial", "wform": "mixed", "dform": "mixed", "tform": "mixed", "post": True,
+     "kids": [[["T", "k"]], [], [], []],
+     "prog": [["W", 0, [["D", ["T", "a"]], ["W", 1, [["D", ["C", 5]], ["D", ["M", 3]], ["D", ["R", "<r>"]]]],
+                        ["W", 2, [["D", ["L", "list", [["I", "int", "0"], ["N"], ["G", 3]]]], ["D", ["M", 4]]]],
+                        ["D", ["H", "<hr>", "sub"]], ["D", ["T", "s", "sub"]]]]]},
+    {"hook": "base", "hookform": "returns", "wform": "manual", "kids": [[], []],
+     "prog": [["W", 0, [["W", 1, [["D", ["B", "set"]]]], ["D", ["T", "never"]]]]]},
+    {"hook": "base", "wform": "exitstack", "kids": [[], []],
+     "prog": [["W", 0, [["W", 1, [["W", 0, [["D", ["T", "never"]]]]]], ["D", ["T", "never"]]]], ["D", ["T", "x"]]]},
     # sys.displayhook = None at the start (correspondence only)
     {"hook": "none", "kids": [[], []], "prog": [["W", 0, [["W", 0, [["D", ["T", "a"]]]], ["D", ["T", "b"]]]]]},
     {"hook": "none", "kids": [[]], "prog": [["D", ["T", "a"]]]},
@@ -890,7 +1550,26 @@ def run(ctx: Ctx) -> None:
                 "far, finished, or itself a copy) followed by with-blocks on the copy (own block, nested, "
                 "displayed) and on the original, plus all small programs around one copy step; displayed values "
                 "include instances of ONE class only some of which carry _repr_html_ (resp. tagify) as an "
-                "instance attribute, interleaved within and across programs. "
+                "instance attribute, interleaved within and across programs; "
+                "(7) ROUTES, chosen per program: the enclosing hook is a function / bound method / lambda / partial / "
+                "callable object / a hook returning a value / a FALSY callable (empty list-subclass recorder, "
+                "__bool__ False, __len__ 0); blocks are entered by the with-statement, contextlib.ExitStack or explicit "
+                "__enter__/__exit__ calls; values are displayed by sys.displayhook(v) or by an expression statement "
+                "compiled in 'single' mode; tags are made by Tag(), tags.<name>(), the top-level re-exports, with "
+                "attributes and _add_ws=False, or are instances of a Tag subclass; str / HTML subclass instances, a JSX "
+                "component, head_content and same-name dependencies are among the values; every program of <= 2 "
+                "statements runs under every kind of hook; (8) SIZES: list/tuple nesting depth and with-block nesting "
+                "depth 7,8,9,15,16,17,31..34,63,64,65,70 (valid leaf / TagList / invalid leaf at the bottom, siblings "
+                "after the deep part), and 7..300 (around every power of two up to 256, and 300) items in one displayed "
+                "list/tuple/TagList, values displayed in one block, blocks in a row, initial children, copies of "
+                "copies (<= 65), with the telling item last; strings of 300, 4097, 5000, 65537, 70001 characters with a "
+                "distinctive tail as text / HTML / _repr_html_ markup; (9) afterwards (15% of programs, half of the big "
+                "ones): displayed containers unchanged and not adopted as a child list; the tags used as context managers "
+                "rendered through every route (get_html_string default and indent=3/eol=CRLF, tagify, render, str, repr, "
+                "_repr_html_, json dependency mode, HTMLDocument with and without lang / lib_prefix=None, dependency "
+                "list, copy.copy) against the tag the constructor builds from the specified children; "
+                "(10) wrap_displayhook_handler used directly with a recording handler of every form and with tag.append, "
+                "two wrappers alive at once. "
                 "Non-trivial = contains at least one with-block; distinct = distinct canonical programs.")
     ctx.assumptions = [
         "the extracted OCaml model behaves as the Gallina model (ExtrOcamlBasic only)",
@@ -907,6 +1586,13 @@ def run(ctx: Ctx) -> None:
         "(restoration, exactly-once delivery of that same object, children only in the tag named in the "
         "with-statement) still applies",
         "a copy is taken with copy.copy(t), or t.tagify() when no child would be expanded or replaced by it",
+        "the enclosing hook may be any callable; its truth value, length and return value are irrelevant to the "
+        "statement (falsy callables are part of the input space)",
+        "not generated: an invalid value whose __eq__ claims equality with None / Ellipsis (unittest.mock.ANY) -- /repo "
+        "ignores it silently instead of raising TypeError (`value not in (None, ...)` compares by equality); reported",
+        "a tag that was used as a context manager is compared with a constructor-built tag by RENDERING, not by ==: "
+        "Tag.__eq__ compares every instance attribute, prev_displayhook included, so a used tag is unequal to a fresh "
+        "one with the same name, attributes and children (outside the statement; reported)",
     ]
     ctx.proof()
 
@@ -952,7 +1638,24 @@ def run(ctx: Ctx) -> None:
     ctx.extra["small_scope_with_copy"] = len(small) - n_plain
     ctx.extra["exhaustive_small_scope"] = (f"all {len(small)} programs with <= {top} statements, 2 tags, "
                                            "nesting <= 3")
+    # every kind of enclosing hook around every program of <= 2 statements; the others take turns
+    n_small = len(small)
+    for i, c in enumerate(small[:n_small]):
+        if nstmts(c["prog"]) <= 2 and "ncopy" not in c:
+            small += [{**c, "hookform": f} for f in HOOK_FORMS[1:]]
+        else:
+            c["hookform"] = HOOK_FORMS[i % len(HOOK_FORMS)]
+            c["wform"] = (W_FORMS + ["mixed"])[(i // len(HOOK_FORMS)) % 4]
+            c["dform"] = ["call", "single", "mixed"][(i // 7) % 3]
+    ctx.extra["small_scope_hook_forms"] = len(small) - n_small
     check_cases(ctx, "all small programs", small, "small scope")
+
+    big = big_cases(rng, rounds=ctx.budget(1, 3))
+    check_cases(ctx, "sizes and depths at powers of two", big,
+                lambda c: "big: " + str(c["big"]).split()[0])
+
+    for c in direct_cases(rng, ctx.budget(300, 4000)):
+        check_direct(ctx, c)
 
     none_start = []
     for c in many[: ctx.budget(150, 1500)]:
@@ -966,12 +1669,16 @@ def run(ctx: Ctx) -> None:
 def replay(ctx: Ctx, path: str) -> None:
     with open(path, encoding="utf-8") as f:
         r = json.load(f)
-    print(json.dumps(r, indent=1)[:4000])
+    print(json.dumps(r, indent=None)[:4000])
     case = r.get("case")
     if isinstance(case, dict) and "prog" in case:
         ctx.rule = "replay of one recorded program"
         ctx.proof()
-        print(compile_prog(case["prog"])[3])
+        print(compile_prog(case["prog"], case.get("wform", "with"), case.get("dform", "call"))[3][:6000])
         check_cases(ctx, "replayed program", [case], "replay")
+    elif isinstance(case, dict) and case.get("direct"):
+        ctx.rule = "replay of one recorded use of wrap_displayhook_handler"
+        ctx.proof()
+        check_direct(ctx, case)
     else:
         run(ctx)
